@@ -506,9 +506,48 @@ PROPS = {
                         "failures depend on the schedule: the replay file is the trial plus the server goroutine dump; rapid cannot shrink them"],
         "units": [
             plain("c14", "TestReplayScenarios", race=True),
-            rapid("c14", "TestPropStress", quick=(150, 6), thorough=(4000, 14), race=True, shrinktime="15s"),
+            rapid("c14", "TestPropStress", quick=(150, 6), thorough=(2500, 14), race=True, shrinktime="15s"),
             plain("c14l", "TestReplayScenariosMonitored", race=True, prebuild="lockmon"),
-            rapid("c14l", "TestPropLockOrder", quick=(60, 6), thorough=(1500, 14), race=True, prebuild="lockmon", shrinktime="15s"),
+            rapid("c14l", "TestPropLockOrder", quick=(60, 6), thorough=(500, 14), race=True, prebuild="lockmon", shrinktime="15s"),
         ],
     },
 }
+
+# ---- additions of the second session (strengthened after seeded changes were missed; see DESIGN.md 8.4)
+_MORE = {
+    "C04": " Also literals (sync/non-sync, often of size 0) in positions where the grammar has no string (SEARCH dates and numbers, FETCH sets, STORE flags, "
+           "STATUS items), with command-like text as data and as the rest of the line: the command must fail, its data and line tail are never executed.",
+    "C06": " Oversize refusals (TestPropOversize): APPEND above the append limit in every connection state (not authenticated, authenticated, selected, after "
+           "UNAUTHENTICATE, after a failed LOGIN), buffered arguments above 4096 octets in 11 commands, synchronising and non-synchronising, and SASL/DONE "
+           "lines of 4000..70000 octets: no continuation request may be sent for data that must be refused, a tagged NO/BAD or BYE must follow, nothing of that "
+           "size (and no command-like literal data) reaches the backend. Nesting probes are repeated after 9000 commands carrying empty lists on the same "
+           "connection, and a SEARCH nested deeper than the cap must not reach the backend.",
+    "C07": " Mailbox changes are also made between two network writes of a running Poll (write hook on the server side of the connection): updates queued "
+           "while a poll is writing must neither be lost nor overtake or overwrite the ones being written. SessionTracker.NumMessages() must equal the number "
+           "of messages the client has been told about after every step.",
+    "C09": " Concurrent part (TestPropConcurrentUIDs): 2-5 sessions run APPEND (unique subjects), COPY/MOVE/UID COPY/UID MOVE, STORE and EXPUNGE at the same time; "
+           "every APPENDUID and every UID pair of every COPYUID is collected and audited against the final mailboxes: no UID handed out twice, a claimed UID "
+           "holds the claimed message, nothing exists that was never announced.",
+    "C10": " Second engine (TestPropScripted): generated client programs (21 operation kinds incl. pipelining, LOGOUT with a command behind it, 1 MiB+ literals "
+           "through Collect) against a scripted server with greetings / LOGIN completions with and without CAPABILITY code, LITERAL- or not; the server's bytes "
+           "go through a drawn budget after which the connection is closed, reset, stalled (the caller then closes the client) or the client's writes fail; "
+           "oracle: every call returns, Close returns, no imapclient goroutine survives, a call reports success only if its tagged completion was sent entirely.",
+    "C11": " Nesting probes are repeated after 9000 responses containing empty lists on the same connection (the cap must not depend on history).",
+    "C12": " Rounds have up to 5 commands, several LIST/SEARCH commands per round (answered in sending order, their data carries no correlator), LIST ... RETURN "
+           "(STATUS) with STATUS responses dropped for some mailboxes and \\Noselect mailboxes, STATUS on 'inbox' in three spellings answered in either spelling; "
+           "a final LOGOUT round with 0-2 commands pipelined behind it which are never answered (they must fail, State() must be logout).",
+    "C13": " Workloads also contain 300-message FETCH streams whose consumer lags and calls State()/Mailbox() between messages, a 128 KiB body literal streamed in "
+           "1500-byte reads while the server sends it in pieces, LOGOUT answered without closing for 0-6 further responses, commands with two synchronising "
+           "literals of which the k-th is refused, NOOPs answered with unilateral EXPUNGE/EXISTS/FLAGS while other goroutines read every field of Mailbox(); "
+           "disruptors: server close, mid-line close, Client.Close, client write failure.",
+    "C15": " Argument sets of AddSet stay alive: they are mutated later and compared with their own model after every step (no aliasing in either direction).",
+    "C16": " Every encoder/decoder case additionally goes through the wire entry points imapwire.Encoder.Mailbox and Decoder.ExpectMailbox (literal form) and is "
+           "judged by the same reference codec.",
+    "C18": " Capabilities and enabled extensions change during a session: a later LOGIN may be answered with other capabilities (with or without CAPABILITY "
+           "code), UNAUTHENTICATE (with or without code) disables what ENABLE enabled, ENABLE may come late; each command is judged against what is in force "
+           "when it is sent.",
+    "C19": " A quarter of the backend commands and a sixth of the stub commands are text-heavy: BODY/TEXT/SUBJECT/HEADER keys at several levels of one NOT/OR tree.",
+}
+for _k, _v in _MORE.items():
+    PROPS[_k]["rule"] += _v
+PROPS["C09"]["assumptions"][0] = "model part: " + PROPS["C09"]["assumptions"][0]
